@@ -536,6 +536,7 @@ theorem pushScalar_refines (ext : Ext) : ∀ (b : B) (x : SVal) (b' : B), WFH b 
       · rename_i i hi
         obtain ⟨idx', h1, h2⟩ := (bind_ok _ _ _).1 h
         cases h2
+        rw [ctx_eq_ok] at h1
         obtain ⟨hidx, lv, hdec, hint⟩ := pushScalar_key ext hnd.1 hw'.1 h1
         have hlt : i < index.length := by
           have := SaModel.Props.C11Front.indexOfName_some index s i hi
@@ -559,6 +560,7 @@ theorem pushScalar_refines (ext : Ext) : ∀ (b : B) (x : SVal) (b' : B), WFH b 
         obtain ⟨vals', h1, h2⟩ := (bind_ok _ _ _).1 h
         obtain ⟨idx', h3, h4⟩ := (bind_ok _ _ _).1 h2
         cases h4
+        rw [ctx_eq_ok] at h1 h3
         obtain ⟨hvals, lw, hdecv⟩ := pushScalar_refines ext vals _ vals' hw'.2.1 hnd.2.2 h1
         obtain ⟨hidx, lv, hdec, hint⟩ := pushScalar_key ext hnd.1 hw'.1 h3
         have hnotin : s ∉ index := by
